@@ -21,7 +21,7 @@ RULE = (
     "Hypothesis draws scripts from the widest profile of the typed grammar: every statement/expression form, every device kind "
     "(Led, RGBLed, Servo, DCMotor, Buzzer, Button, Potentiometer, Ultrasonic, parallel and I2C LCD; hoistable kinds also declared "
     "at the top of the main-loop body) with every method and getter, helpers using devices, lists, printable string literals from a "
-    "hostile alphabet (quotes, backslash, #, %, braces). No reference run is needed. Oracle: transpile -> ValueError (rejected, counted) "
+    "hostile alphabet (quotes, backslash, #, %, braces); a second shard family feeds the type-flow scenario scripts of C02 (hoisted declarations, helper variants per call signature, promoted / shadowed / annotated parameters). No reference run is needed. Oracle: transpile -> ValueError (rejected, counted) "
     "or emitted text with exactly one `void setup()` / `void loop()` that g++ accepts with -std=gnu++11 -fno-exceptions -fpermissive "
     "against the mock Arduino core; every 4th accepted sketch is also linked. Non-trivial = accepted and contains a helper, a list, a device "
     "with >=2 method calls or a string literal with a character that needs escaping. distinct = distinct script."
@@ -108,10 +108,36 @@ def nontrivial(feats, src):
 
 def plan(tier):
     n = 50 if tier == "quick" else 2500
-    return [(f"gen-{i}", {"n": n}) for i in range(16)]
+    return [(f"gen-{i}", {"n": n}) for i in range(16)] + [(f"typeflow-{i}", {"n": 40 if tier == "quick" else 1500}) for i in range(8)]
+
+
+def run_typeflow(name, seed, tier, n):
+    """the type-flow scenario scripts of C02 (hoists, helper variants, promoted / shadowed / annotated parameters) under the compile oracle"""
+    from checks import c02
+
+    r = Result()
+    found = {}
+
+    @hseed(seed)
+    @hyp_settings(n, phases=(Phase.generate,))
+    @given(c02.program(frozenset(c02.OPEN_CLASSES)))
+    def prop(case):
+        src = case["src"]
+        status, bucket, detail = check_text(src, link=False)
+        r.count("typeflow:" + status)
+        r.case({"src": src} if len(r.samples) < 1 else {"h": hash(src) & 0xffffffff}, status == "ok")
+        if status == "FAIL" and (bucket not in found or len(src) < len(found[bucket][0])):
+            found[bucket] = (src, detail)
+
+    prop()
+    for bucket, (src, detail) in found.items():
+        r.fail(bucket, {"src": src}, "a complete sketch that compiles (or ValueError)", detail)
+    return r
 
 
 def run_shard(name, seed, tier, n):
+    if name.startswith("typeflow"):
+        return run_typeflow(name, seed, tier, n)
     r = Result()
     found = {}
     counter = [0]
